@@ -123,6 +123,7 @@ type chanSend struct {
 	Instr ssa.Instruction
 	Chan  ssa.Value
 	Val   ssa.Value
+	At    ssa.Instruction // where the destination was chosen: Instr, or - when the channel is a phi (`dst = a; ... dst = b; dst <- m`) - the end of the block that picked this channel
 }
 
 func chanSends(fn *ssa.Function, isChan core.VPred) []chanSend {
@@ -137,13 +138,20 @@ func chanSendsDepth(fn *ssa.Function, isChan core.VPred, depth int) []chanSend {
 	core.AllInstrs(fn, func(in ssa.Instruction) {
 		switch x := in.(type) {
 		case *ssa.Send:
-			if isChan(x.Chan) {
-				out = append(out, chanSend{x, x.Chan, x.X})
+			for _, ch := range chanChoices(x.Chan, x) {
+				if isChan(ch.v) {
+					out = append(out, chanSend{x, ch.v, x.X, ch.at})
+				}
 			}
 		case *ssa.Select:
 			for _, st := range x.States {
-				if st.Dir == types.SendOnly && isChan(st.Chan) {
-					out = append(out, chanSend{x, st.Chan, st.Send})
+				if st.Dir != types.SendOnly {
+					continue
+				}
+				for _, ch := range chanChoices(st.Chan, x) {
+					if isChan(ch.v) {
+						out = append(out, chanSend{x, ch.v, st.Send, ch.at})
+					}
 				}
 			}
 		case *ssa.Call:
@@ -166,7 +174,7 @@ func chanSendsDepth(fn *ssa.Function, isChan core.VPred, depth int) []chanSend {
 							val = x.Call.Args[j]
 						}
 					}
-					out = append(out, chanSend{x, x.Call.Args[i], val})
+					out = append(out, chanSend{x, x.Call.Args[i], val, x})
 				}
 			}
 		}
@@ -704,4 +712,96 @@ func errValueOf(site ssa.CallInstruction) ssa.Value {
 		}
 	}
 	return nil
+}
+
+// pathFromEdgeAvoidingNil: PathFromEdgeAvoiding, then - when a path was found - confirmed on
+// nil-feasible paths only (a pending refusal kept in a nil-able local, a named error, ...).
+func pathFromEdgeAvoidingNil(fn *ssa.Function, edges map[core.Edge]bool, target, avoid func(ssa.Instruction) bool, cut map[core.Edge]bool) (bool, ssa.Instruction) {
+	found, w := core.PathFromEdgeAvoiding(fn, edges, target, avoid, cut)
+	if !found {
+		return false, nil
+	}
+	var hit ssa.Instruction
+	res := core.NilWalk(fn, edges, cut, avoid, func(in ssa.Instruction, _ core.NilFacts) {
+		if hit == nil && target(in) {
+			hit = in
+		}
+	})
+	if res.Overflow {
+		return true, w
+	}
+	return hit != nil, hit
+}
+
+// afterSuccessOf: the sink is reached only after the call succeeded: behind its err==nil edge, or -
+// when the error is merged into a variable tested later - the call lies on every path to the sink
+// and, with its error assumed non-nil, the sink is not reached on nil-feasible paths.
+func (c *Ctx) afterSuccessOf(fn *ssa.Function, call ssa.CallInstruction, sink ssa.Instruction) bool {
+	if ok, _ := core.GuardedBy(fn, sink, successGuard(call)); ok {
+		return true
+	}
+	errV := errValueOf(call)
+	if errV == nil {
+		return false
+	}
+	if skip, _ := core.PathAvoiding(fn, nil, func(in ssa.Instruction) bool { return in == sink }, func(in ssa.Instruction) bool { return in == call.(ssa.Instruction) }, nil); skip {
+		// confirm on nil-feasible paths (the call may be conditional on an earlier call's success)
+		skipped := false
+		res := core.NilWalk(fn, nil, nil, func(in ssa.Instruction) bool { return in == call.(ssa.Instruction) }, func(in ssa.Instruction, _ core.NilFacts) {
+			if in == sink {
+				skipped = true
+			}
+		})
+		if skipped || res.Overflow {
+			return false
+		}
+	}
+	reached := false
+	res := core.NilWalkAfterWith(fn, call.(ssa.Instruction), core.NilFacts{errV: false}, nil, nil, func(in ssa.Instruction, _ core.NilFacts) {
+		if in == sink {
+			reached = true
+		}
+	})
+	return !reached && !res.Overflow
+}
+
+type chanChoice struct {
+	v  ssa.Value
+	at ssa.Instruction
+}
+
+// chanChoices: the channel operand itself, or - for a destination picked earlier into a variable -
+// each incoming value of the phi with the end of the block that chose it.
+func chanChoices(ch ssa.Value, at ssa.Instruction) []chanChoice {
+	phi, ok := ch.(*ssa.Phi)
+	if !ok {
+		return []chanChoice{{ch, at}}
+	}
+	var out []chanChoice
+	for i, e := range phi.Edges {
+		pred := phi.Block().Preds[i]
+		v := e
+		if cv, ok := e.(*ssa.ChangeType); ok {
+			v = cv.X
+		}
+		out = append(out, chanChoice{v, pred.Instrs[len(pred.Instrs)-1]})
+	}
+	return out
+}
+
+// allChoices: every possible channel of the operand satisfies p (for hand-off classification).
+func allChanChoices(ch ssa.Value, p func(ssa.Value) bool) bool {
+	cs := chanChoices(ch, nil)
+	for _, c := range cs {
+		if c.v == nil {
+			return false
+		}
+		if k, isK := c.v.(*ssa.Const); isK && k.Value == nil {
+			continue // nil channel: the send is never chosen
+		}
+		if !p(c.v) {
+			return false
+		}
+	}
+	return len(cs) > 0
 }
